@@ -75,7 +75,8 @@ structure Thread where
 inductive Ev where
   | ok (tid kind id : Nat)
   | exh (tid kind : Nat)
-  | rel (tid kind id : Nat)
+  | rel (tid kind id : Nat)                 -- Release(id): release by id, whoever calls it
+  | relo (tid kind id : Nat)                -- release-own: the caller releases the id it holds (NodeIDAllocator.Release)
   | rnw (tid kind id : Nat)
   | nop (tid : Nat)
   | err (tid : Nat)                         -- the call returned a (storage) error to its caller
@@ -135,7 +136,7 @@ def stepThread (P : Params) (c : Cfg) (tid : Nat) : Cfg :=
     | some k =>
       { c with store := erase c.store k,
                threads := upd c.threads tid { finishOp (c.threads tid) with own := none },
-               trace := c.trace ++ [.rel tid k.1 k.2] }
+               trace := c.trace ++ [.relo tid k.1 k.2] }
   | .renewOwn :: _ =>
     match (c.threads tid).own with
     | none => { c with threads := upd c.threads tid (finishOp (c.threads tid)), trace := c.trace ++ [.nop tid] }
